@@ -36,13 +36,17 @@ Proof.
   specialize (IH i ltac:(lia)). lia.
 Qed.
 
+(* the thread is inside the implementation: in a method body or in a downcast closure *)
+Definition holds (p : pc) : bool := match p with InBody _ | InLook _ => true | _ => false end.
+
 Record Inv (s : st) : Prop := {
   i_refs : refs s = sum_owns (ths s);
   i_busy : forall i, i < List.length (ths s) -> idle (at_ (get (ths s) i)) = false -> 1 <= owns (get (ths s) i);
-  i_lock : forall i, i < List.length (ths s) -> ((exists sn, at_ (get (ths s) i) = InBody sn) <-> lock s = Some i);
+  i_lock : forall i, i < List.length (ths s) -> (holds (at_ (get (ths s) i)) = true <-> lock s = Some i);
   i_freed : freed s = true -> refs s = 0 /\ drops s = 1;
   i_nfreed : freed s = false -> drops s = 0;
   i_snap : forall i sn, i < List.length (ths s) -> at_ (get (ths s) i) = InBody sn -> sn = impl s;
+  i_look : forall i sn, i < List.length (ths s) -> at_ (get (ths s) i) = InLook sn -> sn = impl s;
   i_impl : impl s = completed s
 }.
 
@@ -52,17 +56,19 @@ Proof.
   - induction n; cbn; [reflexivity | exact IHn].
   - intros [|i] H Hi; cbn in *; [discriminate|].
     unfold get in Hi. cbn in Hi. rewrite nth_repeat in Hi. cbn in Hi. discriminate.
-  - intros [|i] H; cbn; (split; [intros [sn E] | discriminate]).
+  - intros [|i] H; cbn; (split; [intro E | discriminate]).
     + unfold get in E; cbn in E; discriminate.
     + unfold get in E. cbn in E. rewrite nth_repeat in E. discriminate.
   - discriminate.
   - reflexivity.
   - intros [|i] sn H E; unfold get in E; cbn in E; [discriminate|]. rewrite nth_repeat in E. discriminate.
+  - intros [|i] sn H E; unfold get in E; cbn in E; [discriminate|]. rewrite nth_repeat in E. discriminate.
   - reflexivity.
 Qed.
 
 Lemma facts : retain_is_rmw = true /\ release_is_rmw = true /\ release_frees_on = 1 /\
-              arm_locks_before_call = true /\ arm_holds_lock_during_call = true /\ release_synchronizes = true.
+              arm_locks_before_call = true /\ arm_holds_lock_during_call = true /\ release_synchronizes = true /\
+              downcast_closure_under_lock = true.
 Proof. repeat split; reflexivity. Qed.
 
 Ltac upd_simpl :=
@@ -71,36 +77,34 @@ Ltac upd_simpl :=
          | H : context [List.length (upd _ _ _)] |- _ => rewrite upd_length in H
          end.
 
+(* the thread whose record the step rewrites (k = i) or any other thread (record unchanged) *)
+Ltac at_k i k :=
+  destruct (Nat.eq_dec i k) as [->|?N];
+  [ rewrite ?get_upd_same in * by (rewrite ?upd_length; assumption)
+  | rewrite ?get_upd_other in * by assumption ].
+
 Lemma inv_step s s' : Inv s -> step s s' -> Inv s'.
 Proof.
-  intros I H. destruct facts as (F1 & F2 & F3 & F4 & F5 & _).
-  destruct I as [Irefs Ibusy Ilock Ifreed Infreed Isnap Iimpl].
-  destruct H as [s i Hi Ho _ | s i Hi Hg _ | s i j Hi Hj Hij Hg | s i Hi Hat Ho | s i Hi Hat Hl | s i snap Hi Hat];
+  intros I H. destruct facts as (F1 & F2 & F3 & F4 & F5 & _ & F7).
+  destruct I as [Irefs Ibusy Ilock Ifreed Infreed Isnap Ilook Iimpl].
+  destruct H as [s i Hi Ho _ | s i Hi Hg _ | s i j Hi Hj Hij Hg | s i Hi Hat Ho | s i Hi Hat Hl | s i snap Hi Hat
+                 | s i Hi Hat Ho | s i Hi Hat Hl | s i seen Hi Hat];
     constructor; cbn [refs lock freed drops impl completed ths]; upd_simpl.
   (* ---------------- SClone ---------------- *)
   - pose proof (sum_upd (ths s) i (mkT (S (owns (get (ths s) i))) (at_ (get (ths s) i))) Hi). cbn in *. lia.
-  - intros k Hk Hb. destruct (Nat.eq_dec i k) as [->|N].
-    + rewrite get_upd_same by assumption. cbn. lia.
-    + rewrite get_upd_other in * by assumption. now apply Ibusy.
-  - intros k Hk. destruct (Nat.eq_dec i k) as [->|N].
-    + rewrite get_upd_same by assumption. cbn. now apply Ilock.
-    + rewrite get_upd_other by assumption. now apply Ilock.
+  - intros k Hk Hb. at_k i k; [cbn; lia | now apply Ibusy].
+  - intros k Hk. at_k i k; [cbn; now apply Ilock | now apply Ilock].
   - intro Hf. destruct (Ifreed Hf) as [R _]. pose proof (sum_ge (ths s) i Hi). lia.
   - exact Infreed.
-  - intros k sn Hk E. destruct (Nat.eq_dec i k) as [->|N].
-    + rewrite get_upd_same in E by assumption. cbn in E. now apply (Isnap k).
-    + rewrite get_upd_other in E by assumption. now apply (Isnap k).
+  - intros k sn Hk E. at_k i k; [cbn in E|]; now apply (Isnap k).
+  - intros k sn Hk E. at_k i k; [cbn in E|]; now apply (Ilook k).
   - exact Iimpl.
   (* ---------------- SDrop ---------------- *)
   - assert (1 <= owns (get (ths s) i)) by (destruct Hg as [[_ ?]|?]; lia).
     pose proof (sum_upd (ths s) i (mkT (owns (get (ths s) i) - 1) (at_ (get (ths s) i))) Hi). cbn in *. lia.
-  - intros k Hk Hb. destruct (Nat.eq_dec i k) as [->|N].
-    + rewrite get_upd_same in * by assumption. cbn in *.
-      destruct Hg as [[Hid _]|Hg]; [congruence | lia].
-    + rewrite get_upd_other in * by assumption. now apply Ibusy.
-  - intros k Hk. destruct (Nat.eq_dec i k) as [->|N].
-    + rewrite get_upd_same by assumption. cbn. now apply Ilock.
-    + rewrite get_upd_other by assumption. now apply Ilock.
+  - intros k Hk Hb. at_k i k; [|now apply Ibusy].
+    cbn in *. destruct Hg as [[Hid _]|Hg]; [congruence | lia].
+  - intros k Hk. at_k i k; [cbn; now apply Ilock | now apply Ilock].
   - rewrite F3. assert (O1 : 1 <= owns (get (ths s) i)) by (destruct Hg as [[_ ?]|?]; lia).
     pose proof (sum_ge (ths s) i Hi) as G.
     destruct (Nat.eqb (refs s) 1) eqn:E.
@@ -108,9 +112,8 @@ Proof.
       destruct (freed s) eqn:EF; [destruct (Ifreed eq_refl); lia | rewrite (Infreed eq_refl); reflexivity].
     + intro Hf. destruct (Ifreed Hf). lia.
   - rewrite F3. destruct (Nat.eqb (refs s) 1); [discriminate | exact Infreed].
-  - intros k sn Hk E. destruct (Nat.eq_dec i k) as [->|N].
-    + rewrite get_upd_same in E by assumption. cbn in E. now apply (Isnap k).
-    + rewrite get_upd_other in E by assumption. now apply (Isnap k).
+  - intros k sn Hk E. at_k i k; [cbn in E|]; now apply (Isnap k).
+  - intros k sn Hk E. at_k i k; [cbn in E|]; now apply (Ilook k).
   - exact Iimpl.
   (* ---------------- STransfer ---------------- *)
   - assert (1 <= owns (get (ths s) i)) by (destruct Hg as [[_ ?]|?]; lia).
@@ -118,74 +121,95 @@ Proof.
     assert (Hj' : j < List.length (upd (ths s) i (mkT (owns (get (ths s) i) - 1) (at_ (get (ths s) i))))) by (rewrite upd_length; exact Hj).
     pose proof (sum_upd _ j (mkT (S (owns (get (ths s) j))) (at_ (get (ths s) j))) Hj') as S2.
     rewrite get_upd_other in S2 by assumption. cbn in *. lia.
-  - intros k Hk Hb. destruct (Nat.eq_dec j k) as [->|N].
-    + rewrite get_upd_same by (rewrite upd_length; assumption). cbn. lia.
-    + rewrite get_upd_other in * by assumption. destruct (Nat.eq_dec i k) as [->|N2].
-      * rewrite get_upd_same in * by assumption. cbn in *. destruct Hg as [[Hid _]|Hg]; [congruence | lia].
-      * rewrite get_upd_other in * by assumption. now apply Ibusy.
-  - intros k Hk. destruct (Nat.eq_dec j k) as [->|N].
-    + rewrite get_upd_same by (rewrite upd_length; assumption). cbn. now apply Ilock.
-    + rewrite get_upd_other by assumption. destruct (Nat.eq_dec i k) as [->|N2].
-      * rewrite get_upd_same by assumption. cbn. now apply Ilock.
-      * rewrite get_upd_other by assumption. now apply Ilock.
+  - intros k Hk Hb. at_k j k; [cbn; lia|].
+    at_k i k; [|now apply Ibusy].
+    cbn in *. destruct Hg as [[Hid _]|Hg]; [congruence | lia].
+  - intros k Hk. at_k j k; [cbn; now apply Ilock|].
+    at_k i k; [cbn; now apply Ilock | now apply Ilock].
   - intro Hf. destruct (Ifreed Hf) as [R _]. pose proof (sum_ge (ths s) i Hi).
     destruct Hg as [[_ ?]|?]; lia.
   - exact Infreed.
-  - intros k sn Hk E. destruct (Nat.eq_dec j k) as [->|N].
-    + rewrite get_upd_same in E by (rewrite upd_length; assumption). cbn in E. now apply (Isnap k).
-    + rewrite get_upd_other in E by assumption. destruct (Nat.eq_dec i k) as [->|N2].
-      * rewrite get_upd_same in E by assumption. cbn in E. now apply (Isnap k).
-      * rewrite get_upd_other in E by assumption. now apply (Isnap k).
+  - intros k sn Hk E. at_k j k; [cbn in E; now apply (Isnap k)|].
+    at_k i k; [cbn in E|]; now apply (Isnap k).
+  - intros k sn Hk E. at_k j k; [cbn in E; now apply (Ilook k)|].
+    at_k i k; [cbn in E|]; now apply (Ilook k).
   - exact Iimpl.
   (* ---------------- SCall ---------------- *)
   - pose proof (sum_upd (ths s) i (mkT (owns (get (ths s) i)) Waiting) Hi). cbn in *. lia.
-  - intros k Hk Hb. destruct (Nat.eq_dec i k) as [->|N].
-    + rewrite get_upd_same by assumption. cbn. exact Ho.
-    + rewrite get_upd_other in * by assumption. now apply Ibusy.
-  - intros k Hk. destruct (Nat.eq_dec i k) as [->|N].
-    + rewrite get_upd_same by assumption. cbn. split; [intros [sn E]; discriminate|].
-      intro HL. apply (Ilock k Hk) in HL. destruct HL as [sn E]. congruence.
-    + rewrite get_upd_other by assumption. now apply Ilock.
+  - intros k Hk Hb. at_k i k; [cbn; exact Ho | now apply Ibusy].
+  - intros k Hk. at_k i k; [|now apply Ilock].
+    cbn. split; [discriminate|]. intro HL. apply (Ilock k Hk) in HL. rewrite Hat in HL. discriminate.
   - exact Ifreed.
   - exact Infreed.
-  - intros k sn Hk E. destruct (Nat.eq_dec i k) as [->|N].
-    + rewrite get_upd_same in E by assumption. discriminate.
-    + rewrite get_upd_other in E by assumption. now apply (Isnap k).
+  - intros k sn Hk E. at_k i k; [discriminate | now apply (Isnap k)].
+  - intros k sn Hk E. at_k i k; [discriminate | now apply (Ilook k)].
   - exact Iimpl.
   (* ---------------- SAcq ---------------- *)
   - pose proof (sum_upd (ths s) i (mkT (owns (get (ths s) i)) (InBody (impl s))) Hi). cbn in *. lia.
-  - intros k Hk Hb. destruct (Nat.eq_dec i k) as [->|N].
-    + rewrite get_upd_same by assumption. cbn. apply Ibusy; [assumption|]. now rewrite Hat.
-    + rewrite get_upd_other in * by assumption. now apply Ibusy.
-  - rewrite F4. specialize (Hl F4). intros k Hk. destruct (Nat.eq_dec i k) as [->|N].
-    + rewrite get_upd_same by assumption. cbn. split; eauto.
-    + rewrite get_upd_other by assumption. split.
+  - intros k Hk Hb. at_k i k; [|now apply Ibusy].
+    cbn. apply Ibusy; [assumption|]. now rewrite Hat.
+  - rewrite F4. specialize (Hl F4). intros k Hk. at_k i k.
+    + cbn. split; reflexivity.
+    + split.
       * intro HB. apply (Ilock k Hk) in HB. congruence.
       * intro E. inversion E. congruence.
   - exact Ifreed.
   - exact Infreed.
-  - intros k sn Hk E. destruct (Nat.eq_dec i k) as [->|N].
-    + rewrite get_upd_same in E by assumption. cbn in E. congruence.
-    + rewrite get_upd_other in E by assumption. now apply (Isnap k).
+  - intros k sn Hk E. at_k i k; [cbn in E; congruence | now apply (Isnap k)].
+  - intros k sn Hk E. at_k i k; [discriminate | now apply (Ilook k)].
   - exact Iimpl.
   (* ---------------- SRet ---------------- *)
   - pose proof (sum_upd (ths s) i (mkT (owns (get (ths s) i)) Idle) Hi). cbn in *. lia.
-  - intros k Hk Hb. destruct (Nat.eq_dec i k) as [->|N].
-    + rewrite get_upd_same in Hb by assumption. discriminate.
-    + rewrite get_upd_other in * by assumption. now apply Ibusy.
-  - rewrite F5. assert (HL : lock s = Some i) by (apply (Ilock i Hi); eauto).
-    intros k Hk. destruct (Nat.eq_dec i k) as [->|N].
-    + rewrite get_upd_same by assumption. cbn. split; [intros [sn E]; discriminate | discriminate].
-    + rewrite get_upd_other by assumption. split; [|discriminate].
-      intro HB. apply (Ilock k Hk) in HB. congruence.
+  - intros k Hk Hb. at_k i k; [discriminate | now apply Ibusy].
+  - rewrite F5. assert (HL : lock s = Some i) by (apply (Ilock i Hi); now rewrite Hat).
+    intros k Hk. at_k i k.
+    + cbn. split; discriminate.
+    + split; [|discriminate]. intro HB. apply (Ilock k Hk) in HB. congruence.
   - exact Ifreed.
   - exact Infreed.
-  - intros k sn Hk E. destruct (Nat.eq_dec i k) as [->|N].
-    + rewrite get_upd_same in E by assumption. discriminate.
-    + rewrite get_upd_other in E by assumption.
-      assert (HL : lock s = Some i) by (apply (Ilock i Hi); eauto).
-      assert (HK : lock s = Some k) by (apply (Ilock k Hk); eauto). congruence.
+  - intros k sn Hk E. at_k i k; [discriminate|].
+    assert (HL : lock s = Some i) by (apply (Ilock i Hi); now rewrite Hat).
+    assert (HK : lock s = Some k) by (apply (Ilock k Hk); now rewrite E). congruence.
+  - intros k sn Hk E. at_k i k; [discriminate|].
+    assert (HL : lock s = Some i) by (apply (Ilock i Hi); now rewrite Hat).
+    assert (HK : lock s = Some k) by (apply (Ilock k Hk); now rewrite E). congruence.
   - rewrite (Isnap i snap Hi Hat), Iimpl. reflexivity.
+  (* ---------------- SLook ---------------- *)
+  - pose proof (sum_upd (ths s) i (mkT (owns (get (ths s) i)) WaitLook) Hi). cbn in *. lia.
+  - intros k Hk Hb. at_k i k; [cbn; exact Ho | now apply Ibusy].
+  - intros k Hk. at_k i k; [|now apply Ilock].
+    cbn. split; [discriminate|]. intro HL. apply (Ilock k Hk) in HL. rewrite Hat in HL. discriminate.
+  - exact Ifreed.
+  - exact Infreed.
+  - intros k sn Hk E. at_k i k; [discriminate | now apply (Isnap k)].
+  - intros k sn Hk E. at_k i k; [discriminate | now apply (Ilook k)].
+  - exact Iimpl.
+  (* ---------------- SLookAcq ---------------- *)
+  - pose proof (sum_upd (ths s) i (mkT (owns (get (ths s) i)) (InLook (impl s))) Hi). cbn in *. lia.
+  - intros k Hk Hb. at_k i k; [|now apply Ibusy].
+    cbn. apply Ibusy; [assumption|]. now rewrite Hat.
+  - rewrite F7. intros k Hk. at_k i k.
+    + cbn. split; reflexivity.
+    + split.
+      * intro HB. apply (Ilock k Hk) in HB. congruence.
+      * intro E. inversion E. congruence.
+  - exact Ifreed.
+  - exact Infreed.
+  - intros k sn Hk E. at_k i k; [discriminate | now apply (Isnap k)].
+  - intros k sn Hk E. at_k i k; [cbn in E; congruence | now apply (Ilook k)].
+  - exact Iimpl.
+  (* ---------------- SLookEnd ---------------- *)
+  - pose proof (sum_upd (ths s) i (mkT (owns (get (ths s) i)) Idle) Hi). cbn in *. lia.
+  - intros k Hk Hb. at_k i k; [discriminate | now apply Ibusy].
+  - rewrite F7. assert (HL : lock s = Some i) by (apply (Ilock i Hi); now rewrite Hat).
+    intros k Hk. at_k i k.
+    + cbn. split; discriminate.
+    + split; [|discriminate]. intro HB. apply (Ilock k Hk) in HB. congruence.
+  - exact Ifreed.
+  - exact Infreed.
+  - intros k sn Hk E. at_k i k; [discriminate | now apply (Isnap k)].
+  - intros k sn Hk E. at_k i k; [discriminate | now apply (Ilook k)].
+  - exact Iimpl.
 Qed.
 
 Lemma step_length s s' : step s s' -> List.length (ths s') = List.length (ths s).
@@ -201,9 +225,27 @@ Theorem mutual_exclusion n s i j a b : reachable n s ->
   i < List.length (ths s) -> j < List.length (ths s) ->
   at_ (get (ths s) i) = InBody a -> at_ (get (ths s) j) = InBody b -> i = j.
 Proof.
-  intros R Hi Hj Ei Ej. destruct (reachable_inv _ _ R) as [_ _ Ilock _ _ _ _].
-  assert (L1 : lock s = Some i) by (apply (Ilock i Hi); eauto).
-  assert (L2 : lock s = Some j) by (apply (Ilock j Hj); eauto). congruence.
+  intros R Hi Hj Ei Ej. destruct (reachable_inv _ _ R) as [_ _ Ilock _ _ _ _ _].
+  assert (L1 : lock s = Some i) by (apply (Ilock i Hi); now rewrite Ei).
+  assert (L2 : lock s = Some j) by (apply (Ilock j Hj); now rewrite Ej). congruence.
+Qed.
+
+(* ... and a downcast closure has the implementation to itself as well: no method body and no other
+   closure runs while it does, and the state it saw when it started is still the state *)
+Theorem look_is_exclusive n s i j : reachable n s ->
+  i < List.length (ths s) -> j < List.length (ths s) ->
+  holds (at_ (get (ths s) i)) = true -> holds (at_ (get (ths s) j)) = true -> i = j.
+Proof.
+  intros R Hi Hj Ei Ej. destruct (reachable_inv _ _ R) as [_ _ Ilock _ _ _ _ _].
+  assert (L1 : lock s = Some i) by (now apply (Ilock i Hi)).
+  assert (L2 : lock s = Some j) by (now apply (Ilock j Hj)). congruence.
+Qed.
+
+Theorem look_sees_stable_state n s i seen : reachable n s -> i < List.length (ths s) ->
+  at_ (get (ths s) i) = InLook seen -> seen = impl s /\ seen = completed s.
+Proof.
+  intros R Hi E. destruct (reachable_inv _ _ R) as [_ _ _ _ _ _ Ilook Iimpl].
+  pose proof (Ilook i seen Hi E). split; [assumption | congruence].
 Qed.
 
 (* every invocation observes the effects of all invocations that completed before it
@@ -212,20 +254,20 @@ Qed.
 Theorem sees_completed_effects n s i a : reachable n s -> i < List.length (ths s) ->
   at_ (get (ths s) i) = InBody a -> a = completed s.
 Proof.
-  intros R Hi E. destruct (reachable_inv _ _ R) as [_ _ _ _ _ Isnap Iimpl].
+  intros R Hi E. destruct (reachable_inv _ _ R) as [_ _ _ _ _ Isnap _ Iimpl].
   rewrite <- Iimpl. now apply (Isnap i).
 Qed.
 
 (* the implementation is dropped at most once, and only when no handle is left *)
 Theorem dropped_at_most_once n s : reachable n s -> drops s <= 1.
 Proof.
-  intro R. destruct (reachable_inv _ _ R) as [_ _ _ Ifreed Infreed _ _].
+  intro R. destruct (reachable_inv _ _ R) as [_ _ _ Ifreed Infreed _ _ _].
   destruct (freed s) eqn:E; [destruct (Ifreed eq_refl); lia | rewrite (Infreed eq_refl); lia].
 Qed.
 
 Theorem dropped_only_after_last_release n s : reachable n s -> drops s = 1 -> refs s = 0.
 Proof.
-  intros R D. destruct (reachable_inv _ _ R) as [_ _ _ Ifreed Infreed _ _].
+  intros R D. destruct (reachable_inv _ _ R) as [_ _ _ Ifreed Infreed _ _ _].
   destruct (freed s) eqn:E; [now destruct (Ifreed eq_refl) | rewrite (Infreed eq_refl) in D; discriminate].
 Qed.
 
@@ -233,7 +275,7 @@ Qed.
 Theorem no_drop_while_in_body n s i : reachable n s -> i < List.length (ths s) ->
   idle (at_ (get (ths s) i)) = false -> drops s = 0.
 Proof.
-  intros R Hi B. destruct (reachable_inv _ _ R) as [Irefs Ibusy _ Ifreed Infreed _ _].
+  intros R Hi B. destruct (reachable_inv _ _ R) as [Irefs Ibusy _ Ifreed Infreed _ _ _].
   destruct (freed s) eqn:E; [|now apply Infreed].
   destruct (Ifreed eq_refl) as [R0 _]. pose proof (Ibusy i Hi B). pose proof (sum_ge (ths s) i Hi). lia.
 Qed.
@@ -242,12 +284,12 @@ Qed.
 Theorem dropped_when_all_released n s : reachable n s -> refs s = 0 -> drops s = 1.
 Proof.
   intros R. induction R as [|s s' R IH H]; [discriminate|].
-  pose proof (reachable_inv _ _ R) as I. destruct facts as (_ & _ & F3 & _ & _ & _).
+  pose proof (reachable_inv _ _ R) as I. destruct facts as (_ & _ & F3 & _ & _ & _ & _).
   destruct H; cbn [refs drops]; intro Z; try (now apply IH); try lia.
   - (* SDrop *) rewrite F3. destruct (Nat.eqb (refs s) 1) eqn:E.
-    + destruct I as [_ _ _ Ifreed Infreed _ _].
+    + destruct I as [_ _ _ Ifreed Infreed _ _ _].
       destruct (freed s) eqn:EF; [destruct (Ifreed eq_refl); apply Nat.eqb_eq in E; lia | now rewrite (Infreed eq_refl)].
     + apply Nat.eqb_neq in E. assert (refs s = 0) by lia.
-      destruct I as [Irefs _ _ _ _ _ _]. pose proof (sum_ge (ths s) i H).
+      destruct I as [Irefs _ _ _ _ _ _ _]. pose proof (sum_ge (ths s) i H).
       destruct H0 as [[_ ?]|?]; lia.
 Qed.
